@@ -495,6 +495,17 @@ class Program:
         if not c:
             return set()
         if c[0] == 'm':
+            base = self.records.get(c[1].split('.', 1)[0])
+            if c[1].endswith('.dctor') and base is not None and len(base['fields']) == 1:
+                # EbObject is the layout-compatible base of every object with a destructor (first member `EbDctor dctor`):
+                # a call through the base's slot may reach any function stored in some struct's first-member dctor slot
+                out = set()
+                for fid, fs in field.items():
+                    if fid.endswith('.dctor'):
+                        r = self.records.get(fid.split('.', 1)[0])
+                        if r is None or (r['fields'] and r['fields'][0]['n'] == 'dctor'):
+                            out |= fs
+                return out
             return set(field.get(c[1], ()))
         if c[0] == 'i':
             lf = last_field(c)
